@@ -756,6 +756,9 @@ def file_assembly(run, repo):
                     if k_ < 0:
                         return None
                     rest = lit[k_ + len(name) + 1:].lstrip()
+                    if rest.startswith('"') and rest.count('"') >= 2:
+                        # a list of names in CTI: one quoted text, the names separated by white space
+                        return set(rest[1:rest.index('"', 1)].split())
                     if not rest.startswith('[') or ']' not in rest:
                         return None
                     body = rest[1:rest.index(']')]
@@ -1236,8 +1239,12 @@ def check(run, repo):
                      '_filter_reactions semantics',
                      'the XML file write_cti derives from the CTI file (write_xml=True: Cantera\'s ctml_writer)',
                      'line-end translation of files on disk (newline= is handed to open() as given)',
-                     'user ids whose number part is not written with four digits (the range notation re-prints them '
-                     'with four: DEFECT2_C07.md)']
+                     'user ids whose number part is not written with four digits: the range notation '
+                     '(_get_omkm_range) re-prints them with four - the known finding recorded under C18, seen from '
+                     'here (DEFECT2_C07.md D1); the fixtures of file_assembly give user ids in the four-digit spelling']
+    run.note('file_assembly gives user ids in the spelling <head>_dddd: any other spelling is re-printed with four digits '
+             'by the entries that refer to it (_get_omkm_range; known finding recorded under C18, DEFECT2_C07.md D1)',
+             repo.module('pmutt.cantera'), repo.module('pmutt.cantera').functions.get('_get_omkm_range'))
     assign_yaml(run, repo)
     reactor_yaml(run, repo)
     reactor_collections(run, repo)
@@ -1343,11 +1350,11 @@ MUTANTS = [
      'edits': [(R_, '                site_dens.extend([site_den] * int(stoich))', '                site_dens.extend([site_den])')]},
     {'name': 'A2: thermo YAML keeps the BEP relations in a dictionary keyed by name', 'expect': ('DATAFLOW.once', 'write_thermo_yaml'),
      'edits': [(O_, "    beps = []\n    if reactions is not None:\n        reactions_out = []", "    beps = {}\n    if reactions is not None:\n        reactions_out = []"),
-               (O_, "                if bep is not None and bep not in beps:\n                    beps.append(bep)", "                if bep is not None:\n                    beps.setdefault(bep.name, bep)", 1, 2),
+               (O_, "                if bep is not None and bep not in beps:\n                    # Assign BEP name if not present so phases can refer to it\n                    if bep.name is None:\n                        bep.name = 'b_{:04d}'.format(j)\n                        j += 1\n                    beps.append(bep)", "                if bep is not None:\n                    beps.setdefault(bep.name, bep)", 1, 2),
                (O_, "        for bep in beps:\n            # Assign name if necessary", "        for bep in beps.values():\n            # Assign name if necessary")]},
     {'name': 'A2: CTI keeps the BEP relations in a dictionary keyed by name', 'expect': ('DATAFLOW.once', 'write_cti'),
      'edits': [(O_, "        beps = []\n        reaction_lines = []", "        beps = {}\n        reaction_lines = []"),
-               (O_, "                if bep is not None and bep not in beps:\n                    beps.append(bep)", "                if bep is not None:\n                    beps.setdefault(bep.name, bep)", 0, 2),
+               (O_, "                if bep is not None and bep not in beps:\n                    # Assign BEP name if not present so phases can refer to it\n                    if bep.name is None:\n                        bep.name = 'b_{:04d}'.format(j)\n                        j += 1\n                    beps.append(bep)", "                if bep is not None:\n                    beps.setdefault(bep.name, bep)", 0, 2),
                (O_, "            for bep in beps:\n                bep_CTI", "            for bep in beps.values():\n                bep_CTI")]},
     {'name': 'A3: reactor file written with writelines', 'expect': ('DATAFLOW.file', 'write_yaml'),
      'edits': [(O_, '            f_ptr.write(lines_out)', '            f_ptr.writelines(lines)', 2, 3)]},
@@ -1367,9 +1374,9 @@ MUTANTS = [
     {'name': 'A5: thermo YAML hands out reaction ids with five digits', 'expect': ('DATAFLOW.members', 'write_thermo_yaml'),
      'edits': [(O_, "                reaction.id = 'r_{:04d}'.format(i)", "                reaction.id = 'r_{:05d}'.format(i)", 1, 2)]},
     {'name': 'x1: thermo YAML reads reaction.bep unguarded', 'expect': ('DATAFLOW.assembly', 'write_thermo_yaml'),
-     'edits': [(O_, "            try:\n                bep = reaction.bep\n            except AttributeError:\n                pass\n            else:\n                if bep is not None and bep not in beps:\n                    beps.append(bep)", "            bep = reaction.bep\n            if bep is not None and bep not in beps:\n                beps.append(bep)", 1, 2)]},
+     'edits': [(O_, "            try:\n                bep = reaction.bep\n            except AttributeError:\n                pass\n            else:\n                if bep is not None and bep not in beps:", "            bep = reaction.bep\n            if True:\n                if bep is not None and bep not in beps:", 1, 2)]},
     {'name': 'x1: CTI reads reaction.bep unguarded', 'expect': ('DATAFLOW.assembly', 'write_cti'),
-     'edits': [(O_, "            try:\n                bep = reaction.bep\n            except AttributeError:\n                pass\n            else:\n                if bep is not None and bep not in beps:\n                    beps.append(bep)", "            bep = reaction.bep\n            if bep is not None and bep not in beps:\n                beps.append(bep)", 0, 2)]},
+     'edits': [(O_, "            try:\n                bep = reaction.bep\n            except AttributeError:\n                pass\n            else:\n                if bep is not None and bep not in beps:", "            bep = reaction.bep\n            if True:\n                if bep is not None and bep not in beps:", 0, 2)]},
     {'name': 'x2: NASA CTI prints its low coefficients in fixed-point notation', 'expect': ('SLOT.cti', 'Nasa.to_cti'),
      'edits': [('pmutt/empirical/nasa.py', "                   '                      {: 2.8E}]),\\n'", "                   '                      {: 2.8f}]),\\n'")]},
     {'name': 'x2: NASA-9 CTI prints a coefficient in fixed-point notation', 'expect': ('SLOT.cti', 'Nasa9.to_cti'),
@@ -1390,6 +1397,11 @@ MUTANTS = [
      'edits': [(R_, "        reaction_str = self.to_string(stoich_space=True,", "        reaction_str = self.to_string(stoich_space=True, stoich_format='.0f',")]},
     {'name': 'x4: YAML equation rounds the coefficients to integers', 'expect': ('DATAFLOW.reaction', 'SurfaceReaction.to_omkm_yaml'),
      'edits': [(R_, "        yaml_dict['equation'] = self.to_string(stoich_space=True,", "        yaml_dict['equation'] = self.to_string(stoich_space=True, stoich_format='.0f',")]},
+    # defect D2 of the second review (DEFECT2_C07.md), fixed in pMuTT (92cab49): the fix reverted
+    {'name': 'revert 92cab49: CTI leaves BEP relations without a name unnamed', 'expect': ('DATAFLOW.ids', 'write_cti'),
+     'edits': [(O_, "                    # Assign BEP name if not present so phases can refer to it\n                    if bep.name is None:\n                        bep.name = 'b_{:04d}'.format(j)\n                        j += 1\n", "", 0, 2)]},
+    {'name': 'thermo YAML names the BEP relations only after the phases are written', 'expect': ('ORDER.ids-before-phases', 'write_thermo_yaml'),
+     'edits': [(O_, "                    # Assign BEP name if not present so phases can refer to it\n                    if bep.name is None:\n                        bep.name = 'b_{:04d}'.format(j)\n                        j += 1\n", "", 1, 2)]},
 ]
 # rewrites that leave every written file as it is: the instances added after the second review must stay silent
 EQUIV = [
@@ -1399,7 +1411,8 @@ EQUIV = [
      'edits': [(R_, "        n_surf = 0\n        for species, stoich in zip(self.reactants, self.reactants_stoich):\n            if isinstance(species.phase, InteractingInterface):\n                n_surf += stoich\n        return n_surf", "        return sum(stoich for species, stoich in zip(self.reactants, self.reactants_stoich)\n                   if isinstance(species.phase, InteractingInterface))")]},
     {'name': 'CTI keeps the BEP relations in a dictionary keyed by position, unique by identity',
      'edits': [(O_, "        beps = []\n        reaction_lines = []", "        beps = {}\n        reaction_lines = []"),
-               (O_, "                if bep is not None and bep not in beps:\n                    beps.append(bep)", "                if bep is not None and not any(b_ is bep for b_ in beps.values()):\n                    beps[len(beps)] = bep", 0, 2),
+               (O_, "                if bep is not None and bep not in beps:", "                if bep is not None and not any(b_ is bep for b_ in beps.values()):", 0, 2),
+               (O_, "                    beps.append(bep)", "                    beps[len(beps)] = bep", 0, 2),
                (O_, "            for bep in beps:\n                bep_CTI", "            for bep in beps.values():\n                bep_CTI")]},
     {'name': 'rate parameters in the general presentation with six digits',
      'edits': [(R_, "                       '                 [{: .5e}, {}, {: .5e}]{})'", "                       '                 [{:.6g}, {}, {:.6g}]{})'")]},
